@@ -63,12 +63,20 @@ ErrOK(c) == \A x \in DOMAIN c.errs : LET er == c.errs[x] IN
         /\ er.sc = Slice(c.cps, t.s - Len(er.sc), t.s - 1)
         /\ er.ec = Slice(c.cps, t.e + 1, t.e + Len(er.ec))
 
+\* a quoted identifier's source text: the name with its delimiter doubled or characters backslash-escaped, between delimiters
+RECURSIVE EscapedForm(_, _, _)
+EscapedForm(inner, name, q) ==
+    IF inner = <<>> THEN name = <<>>
+    ELSE \/ (name # <<>> /\ Head(inner) = Head(name) /\ EscapedForm(Tail(inner), Tail(name), q))
+         \/ (Head(inner) \in {q, 92} /\ EscapedForm(Tail(inner), name, q))
+
 \* positions copied onto Identifier / Column / Table nodes
 NodeOK(c) == \A x \in DOMAIN c.nodes : LET nd == c.nodes[x]  sl == Slice(c.cps, nd.s, nd.e) IN
     /\ nd.s >= 0 /\ nd.s <= nd.e /\ nd.e < Len(c.cps)
     /\ nd.l = RefLine(c.cps, nd.e + 1) /\ nd.c = RefCol(c.cps, nd.e + 1)
     /\ \/ UpSeq(sl) = UpSeq(nd.name)
        \/ (Len(sl) = Len(nd.name) + 2 /\ SubSeq(sl, 2, Len(sl) - 1) = nd.name)
+       \/ (Len(sl) > Len(nd.name) + 2 /\ EscapedForm(SubSeq(sl, 2, Len(sl) - 1), nd.name, sl[1]))
 
 \* TokenError start/end delimit the snippet it quotes
 TokErrOK(c) == c.te = <<>> \/ (LET x == c.te[1] IN x.s >= 0 /\ x.s <= x.e /\ x.e <= Len(c.cps) /\ Slice(c.cps, x.s, x.e - 1) = x.ctx)
